@@ -771,6 +771,29 @@ impl Iterator for BitSetRangeIter<'_> {
     }
 }
 
+#[cfg(googlefonts_fontations_verif)]
+impl BitSet {
+    /// Verification hook: the page layout as
+    /// `(major value, index into pages, cached page length, actual page population)`
+    /// in page-map order, plus the number of allocated pages and the cached total length.
+    #[allow(clippy::type_complexity)]
+    pub(crate) fn verif_fingerprint(&self) -> (Vec<(u32, u32, u32, u32)>, usize, u64) {
+        let layout = self
+            .page_map
+            .iter()
+            .map(|info| {
+                let (cached, actual) = self
+                    .pages
+                    .get(info.index as usize)
+                    .map(|p| p.verif_lengths())
+                    .unwrap_or((u32::MAX, u32::MAX));
+                (info.major_value, info.index, cached, actual)
+            })
+            .collect();
+        (layout, self.pages.len(), self.length)
+    }
+}
+
 #[cfg(test)]
 mod test {
     use super::*;
